@@ -252,6 +252,7 @@ def build(case):
             and not sw(case, "put_varn_indep_erange") and any((v.status != C.IN).any() for v in vecs)):
         api = dict(api, coll=1)
         excl["put_varn_indep_erange"] = 1
+    plan["api"] = api
     ok0.append((s.op("create", f="f0", path=hx("t.nc"), mode=MODE[fmt]), "create"))
     if kind == "var":
         for i, v in enumerate(vecs):
@@ -435,7 +436,8 @@ def rc_problem(case, v, rc, what):
         w.update({"index": j, "src_hex": v.src[j].tobytes().hex(), "in_hex": (v.src[np.flatnonzero(v.status == C.IN)[:1]].tobytes().hex())})
     return [{"kind": "rc", "msg": "%s %s vector '%s' (%d elements, %d out of range, %d ambiguous) returned %s, expected %s" % (
         label(case), what, v.name, v.n, int((v.status == C.OUT).sum()), int((v.status == C.AMB).sum()), rc, exp),
-        "sig": {"kind": "rc", "dir": case["dir"], "vk": case["kind"], "rc": rc, "expect": exp, "cls": cls}, "where": w}]
+        "sig": {"kind": "rc", "dir": case["dir"], "vk": case["kind"], "rc": rc, "expect": exp, "cls": cls,
+                "dstkind": "int" if case_dtypes(case)[1].kind in "iu" else "float"}, "where": w}]
 
 
 def find_att(atts, name):
@@ -453,6 +455,19 @@ def evaluate(case, plan, res, d, stats=None):
             probs.append(prob("rc0", "%s: %s returned %s, expected 0" % (label(case), what, rc), case, op=what.split()[0], rc=rc))
     if any(p["sig"]["op"] not in ("close", "end_indep") for p in probs):
         return probs
+    late = probs
+    probs = []
+    probs += _evaluate_data(case, plan, res, d, stats)
+    if late:
+        # a failing close/end_indep (e.g. NC_EPENDING) is named in the signature of everything else the case reports
+        tag = ",".join("%s=%s" % (p["sig"]["op"], p["sig"]["rc"]) for p in late)
+        for p in probs:
+            p["sig"]["after"] = tag
+    return probs + late
+
+
+def _evaluate_data(case, plan, res, d, stats=None):
+    probs = []
     if case["kind"] in ("echar_var", "echar_att", "echar_flex"):
         return evaluate_echar(case, plan, res, d)
     vecs = plan["vecs"]
@@ -463,7 +478,7 @@ def evaluate(case, plan, res, d, stats=None):
         uf = user_fill(case) if case["kind"] == "var" else None
         fill = np.array(uf if uf is not None else C.fill_scalar(xt, xd), dtype=xd)
     else:
-        fx = C.MT_FILL_XT[mt]
+        fx = C.MT_FILL_XT.get(mt)
         fill = None if fx is None else C.fill_scalar(fx, dd)
     dump = res.get(plan["dump"]) if "dump" in plan else None
     dec = None
@@ -507,7 +522,7 @@ def evaluate(case, plan, res, d, stats=None):
                 from pv import cdfspec
                 f, data = dec
                 a = np.asarray(cdfspec.read_var(data, f, i))
-                a = a.astype(a.dtype.newbyteorder("="))
+                a = np.ascontiguousarray(a).view(np.uint8) if a.dtype.kind == "S" else a.astype(a.dtype.newbyteorder("="))
                 inside = np.asarray(cdfspec.read_var_mask(data, f, i))
                 if f.vars[i].xtype != xt or a.shape != (v.n,) or not inside.all():
                     probs.append(prob("decode", "%s: decoded variable %d has type %s shape %s" % (label(case), i, f.vars[i].xtype, a.shape), case))
@@ -532,7 +547,7 @@ def evaluate(case, plan, res, d, stats=None):
                 if len(m) != 1 or m[0].xtype != xt or m[0].nelems != v.n:
                     probs.append(prob("decode", "%s: decoded attribute a%d missing or wrong type/length" % (label(case), i), case))
                 else:
-                    vals = np.asarray(m[0].values)
+                    vals = np.frombuffer(m[0].values, dtype=np.uint8) if isinstance(m[0].values, bytes) else np.asarray(m[0].values)
                     probs += judge_vec(case, v, vals.astype(vals.dtype.newbyteorder("=")).astype(xd, copy=False), fill,
                                        "put_att (independent decode of the closed file)", rc)
         if len(probs) > 8:
@@ -632,7 +647,7 @@ def run_case(ctx, case):
     ctx.stats.update(amb)
     if case["kind"] in ("var", "att"):
         ctx.count("vecmode_" + case["vec"]["mode"])
-        api = case.get("api") or {}
+        api = plan.get("api") or {}
         ctx.count("api_%s_%s_%s" % ("flex" if api.get("flex") else "typed", api.get("form", "vara") if case["kind"] == "var" else "att", "coll" if api.get("coll", 1) else "indep"))
         ctx.stats["elements_transferred"] += sum(v.n for v in plan["vecs"])
         for k, n in plan["excl"].items():
@@ -729,8 +744,9 @@ def enum_cases(tier, seed, rnd=0):
     k = 0
     seed = seed + 7919 * rnd
     for fmt in (5, 1, 2):
-        for xt in xt_legal(fmt):
-            for mt in MTS:
+        # the one legal text pair (all 256 byte values, identity) first, then every numeric pair
+        for xt, mt in [(M.NC_CHAR, "text")] + [(x, m) for x in xt_legal(fmt) for m in MTS]:
+            if True:
                 for dr in ("put", "get"):
                     base = {"fmt": fmt, "xt": xt, "mt": mt, "dir": dr}
                     sd, dd = case_dtypes(dict(base))
@@ -753,8 +769,10 @@ def enum_cases(tier, seed, rnd=0):
                         else:
                             c["api"] = api
                         cases.append(c)
-                        if kind == "var" and dr == "put":
+                        if kind == "var" and dr == "put" and xt != M.NC_CHAR:
                             cases.append(dict(c, fill=fill_for(xt, seed + k)))
+                if xt == M.NC_CHAR:
+                    continue
                 for kind in ("echar_var", "echar_att"):
                     cases.append({"kind": kind, "fmt": fmt, "xt": xt, "mt": mt})
                 if fmt == 5:
@@ -815,7 +833,7 @@ def campaign(ctx):
             continue            # one representative per signature and worker
         small, sp = minimise(ctx, case, real)
         ctx.failures.append({"case": small, "problems": sp, "label": "enum"})
-    n = {"quick": 1500, "thorough": 15000}[ctx.tier]
+    n = {"quick": 2500, "thorough": 20000}[ctx.tier]
     runner.run_hypothesis(ctx, case_strategy(ctx.tier), g, n, label="placed")
 
 
